@@ -60,6 +60,10 @@ class Result:
         for key, (k, n) in listed.items():
             print(f"KNOWN-FINDING: property={self.pid} {k['what']} [key={key}, {n} occurrence(s) this run]")
         rdir = os.path.join(VERIF, "evidence", "replays", self.pid)
+        if os.path.isdir(rdir):        # replay files always describe the latest run only
+            for f in os.listdir(rdir):
+                if f.endswith(".json"):
+                    os.remove(os.path.join(rdir, f))
         seen = set()
         for v in unlisted:
             if v["key"] in seen:
